@@ -164,6 +164,14 @@ def declMods (sh : Shape) (layers : List (List Kw)) (use : List Kw) (pos : Pos) 
   | .error e => .error e
   | .ok named => parseTypeForUsage named use sh pos
 
+/-- the callers of `parse_type_for_usage` for the declaration positions of the correspondence: `parse_struct` (structs.rs)
+    refuses `const` written directly on a member **after** the type was parsed ("it can still appear on the type");
+    locals, parameters and globals add no modifier check of their own -/
+def declModsAt (sh : Shape) (layers : List (List Kw)) (use : List Kw) (pos : Pos) : Except Err Mods :=
+  match declMods sh layers use pos with
+  | .error e => .error e
+  | .ok m => if pos == .structMember && use.contains .const then .error .modifierNotSupported else .ok m
+
 def Kw.all : List Kw := [.const, .volatile, .rowMajor, .columnMajor, .unorm, .snorm]
 def Pos.all : List Pos := [.free, .localVar, .parameter, .ret, .structMember, .global, .cbufferMember, .templateArgument]
 
